@@ -245,6 +245,11 @@ var resident = []struct {
 
 func runResident() {
 	for _, r := range resident {
+		if !haveStepper && r.mode == "EDIFACT" && knownKeys[hangKey] {
+			// thousands of these inputs never return; without the stepper they cannot be told apart beforehand
+			chk.Incomplete("(f) encoder resident in EDIFACT", "not executable in a build without the white-box stepper while "+hangKey+" is an open known finding")
+			continue
+		}
 		for ai, a := range r.alphas {
 			maxL := chk.Pick(9, 10)
 			if ai == 0 && (r.mode == "EDIFACT" || r.mode == "X12") {
@@ -427,13 +432,7 @@ func encodeSize(l *mc.Local, t string, h hints) int {
 	return len(cw)
 }
 
-type capCase struct {
-	rt    int
-	n     int
-	shape int
-	sym   dm.Symbol // the symbol whose boundary this is
-	next  *dm.Symbol
-}
+type capCase struct{ rt, n, shape int }
 
 func runCapacity() {
 	// 1. locate, for every run type, shape class and symbol of that class, the longest run that fits
@@ -456,7 +455,7 @@ func runCapacity() {
 					class = append(class, s)
 				}
 			}
-			for k, s := range class {
+			for _, s := range class {
 				lo, hi := 0, 3400 // size(lo) <= cap, size(hi) > cap
 				for hi-lo > 1 {
 					mid := (lo + hi) / 2
@@ -470,19 +469,11 @@ func runCapacity() {
 				if lo == 0 {
 					continue
 				}
-				cc := capCase{rt: rt, n: lo, shape: shape, sym: s}
-				if k > 0 {
-					cc.next = &class[k-1]
-				}
-				found[i] = append(found[i], cc)
+				found[i] = append(found[i], capCase{rt, lo, shape})
 			}
 		})
 	// 2. the cases: n-2..n+2, each followed by every tail
-	type base struct {
-		rt, n, shape int
-		sym          dm.Symbol
-		smaller      *dm.Symbol
-	}
+	type base = capCase
 	seen := map[[3]int]bool{}
 	var bases []base
 	for _, f := range found {
@@ -494,8 +485,16 @@ func runCapacity() {
 					continue
 				}
 				seen[k] = true
-				bases = append(bases, base{cc.rt, n, cc.shape, cc.sym, cc.next})
+				bases = append(bases, base{cc.rt, n, cc.shape})
 			}
+		}
+	}
+	// the Base 256 length field changes from one to two bytes between 249 and 250 data bytes
+	for n := 247; n <= 252; n++ {
+		k := [3]int{5, n, 0}
+		if !seen[k] {
+			seen[k] = true
+			bases = append(bases, base{5, n, 0})
 		}
 	}
 	sort.Slice(bases, func(a, b int) bool { // short runs first: the first report of a key is a small case
@@ -512,7 +511,7 @@ func runCapacity() {
 	for _, j := range jobsFor(sigmaDM, 0, tailMax, "", "", constLevel(0), "", 1<<30) {
 		j.each(func(t string) { tails = append(tails, t) })
 	}
-	chk.Range(fmt.Sprintf("(b) capacity family: %d runs (6 run types x 3 shape classes x all symbols of the class x lengths fill-2..fill+2) x every tail of length 0..%d over Sigma_DM; all levels for tails <= 1, stream level for longer tails; plus MAX_SIZE = own size / next smaller size for tails <= 1 [%d inputs]", len(bases), tailMax, len(bases)*len(tails)), len(bases),
+	chk.Range(fmt.Sprintf("(b) capacity family: %d runs (6 run types x 3 shape classes x all symbols of the class x lengths fill-2..fill+2, and extended runs of 247..252) x every tail of length 0..%d over Sigma_DM; all levels for tails <= 1, stream level for longer tails; plus MAX_SIZE = own size / next smaller size for tails <= 1 [%d inputs]", len(bases), tailMax, len(bases)*len(tails)), len(bases),
 		func(i int) string {
 			return fmt.Sprintf("%s x %d shape=%d", runTypes[bases[i].rt].name, bases[i].n, bases[i].shape)
 		},
